@@ -153,7 +153,7 @@ def c10(ctx):
     ctx.build_harness()
     nchunks = 8 if quick else 10
     _set_const(ctx, "MC_JsonTokens_vec.cfg", "MaxChunks", nchunks)
-    v = ctx.tlc_expect_ok("MC_JsonTokens.tla", "MC_JsonTokens_vec.cfg", timeout=7000, xmx="40g")
+    v = ctx.tlc_expect_ok("MC_JsonTokens.tla", "MC_JsonTokens_vec.cfg", timeout=7000, xmx="24g")
     rep_path = os.path.join(ctx.scratch, "jsonvec.json")
     ctx.vdrive(["jsonvec", "-in", v["out"], "-out", rep_path, "-seed", ctx.seed, "-variants", 0])
     rep = ctx.report(rep_path)
